@@ -1015,12 +1015,20 @@ class ChannelFactory:
     # internal methods, called from the receiver thread
     #
     def _no_longer_opened(self, id: int) -> None:
-        self._channels.pop(id, None)
+        channel = self._channels.pop(id, None)
         item = self._callbacks.pop(id, None)
         if item is not None:
             callback, endmarker, _strconfig = item
             if endmarker is not NO_ENDMARKER_WANTED:
-                callback(endmarker)
+                try:
+                    callback(endmarker)
+                except Exception as exc:
+                    # like a failure on an item: confined to this channel,
+                    # it must not stop the receiver thread or its cleanup
+                    self.gateway._trace("exception during endmarker callback: %s" % exc)
+                    if channel is not None:
+                        errortext = self.gateway._geterrortext(exc)
+                        channel._remoteerrors.append(RemoteError(errortext))
 
     def _local_close(self, id: int, remoteerror=None, sendonly: bool = False) -> None:
         channel = self._channels.get(id)
